@@ -4,6 +4,7 @@
 mod broadcast;
 mod codec;
 mod conn;
+mod halves;
 mod port;
 mod robs_deque;
 mod robs_list;
@@ -132,6 +133,7 @@ fn main() {
         "robs_set" => robs_set::run(seed, count, &extra, &mut out),
         "broadcast" => broadcast::run(seed, count, &extra, &mut out),
         "io" => io::run(seed, count, &extra, &mut out),
+        "halves" => halves::run(seed, count, &extra, &mut out),
         _ => {
             eprintln!("unknown component {comp}");
             std::process::exit(2);
